@@ -393,9 +393,97 @@ def r01_2(ctx, counts: dict[str, int]) -> RuleResult:
     return res
 
 
+def r01_3(ctx, counts: dict[str, int]) -> RuleResult:
+    """Each node once: the identity set of the path operators."""
+    from ..engine.dataflow import branch_facts
+    model = ctx.model
+    reg: RegModel = ctx.reg
+    res = RuleResult(
+        'R01.3', 'DEDUP-SCOPE',
+        'In the select functions bound to "/" and "//": (a) every local set used to remember '
+        'the nodes already returned (a name tested with `result in <set>` and extended with '
+        '`<set>.add(result)`) is created outside every loop, so that it spans all context items '
+        'of the left operand; (b) every `yield result` that can yield a node is dominated by '
+        'the failed membership test `result in <set>`; (c) the result is added to the set on '
+        'the same path.')
+    funcs = {}
+    for sym in ('/', '//'):
+        rec = reg.tables['XPath1Parser'].get(sym)
+        if rec is None or rec.method('select') is None:
+            raise AnalysisError(f'select of {sym!r} not found')
+        funcs[rec.method('select').func] = sym           # type: ignore[union-attr]
+    n = 0
+    for f, sym in funcs.items():
+        sets = set()
+        for x in walk_local(f.node):
+            if isinstance(x, ast.Call) and isinstance(x.func, ast.Attribute) \
+                    and x.func.attr == 'add' and isinstance(x.func.value, ast.Name):
+                sets.add(x.func.value.id)
+        if not sets:
+            res.fail(finding('R01.3', f, f.node, 'no identity set',
+                             f'select of {sym!r} keeps no set of already returned nodes: nodes '
+                             f'reached from two context items are returned twice'))
+            continue
+        # (a) creation sites
+        def creations(body: list, in_loop: bool, out: list) -> None:
+            for st in body:
+                if isinstance(st, (ast.Assign, ast.AnnAssign)):
+                    tg = st.targets[0] if isinstance(st, ast.Assign) else st.target
+                    if isinstance(tg, ast.Name) and tg.id in sets and st.value is not None:
+                        out.append((st, in_loop))
+                loop = isinstance(st, (ast.For, ast.While))
+                for fld in ('body', 'orelse', 'finalbody'):
+                    sub = getattr(st, fld, None)
+                    if isinstance(sub, list) and sub and isinstance(sub[0], ast.stmt):
+                        creations(sub, in_loop or (loop and fld == 'body'), out)
+                if isinstance(st, ast.Try):
+                    for h in st.handlers:
+                        creations(h.body, in_loop, out)
+        cr: list = []
+        creations(f.node.body, False, cr)
+        for st, in_loop in cr:
+            n += 1
+            res.instances.append(f'{f.key}: identity set created at L{st.lineno} '
+                                 f'in_loop={in_loop}')
+            if in_loop:
+                res.fail(finding('R01.3', f, st, 'identity set inside loop',
+                                 f'select of {sym!r}: the set of already returned nodes is '
+                                 f're-created inside the loop over the context items, so a '
+                                 f'node reachable from two of them (nested same-name elements, '
+                                 f'reverse axes) is returned more than once'))
+            else:
+                res.ok()
+        # (b) yields dominated by the membership test
+        cfg = CFG(f.node)
+        facts = branch_facts(cfg)
+        for nd in cfg.nodes:
+            if nd.kind != 'stmt' or not isinstance(nd.ast, ast.Expr) \
+                    or not isinstance(nd.ast.value, ast.Yield):
+                continue
+            v = nd.ast.value.value
+            if not isinstance(v, ast.Name):
+                continue
+            fs = facts[nd.id]
+            name = v.id
+            if f'-isinstance({name}, XPathNode)' in fs:
+                continue                    # atomic values are not de-duplicated
+            n += 1
+            tested = any(fact == f'-{name} in {s_}' for fact in fs for s_ in sets)
+            res.instances.append(f'{f.key}: yield {name} at L{nd.lineno} after membership '
+                                 f'test={tested}')
+            if tested:
+                res.ok()
+            else:
+                res.fail(finding('R01.3', f, nd.ast, f'yield {name} unchecked',
+                                 f'select of {sym!r} yields `{name}` on a path on which it was '
+                                 f'not tested against the set of already returned nodes'))
+    counts['dedup_obligations'] = n
+    return res
+
+
 def run(ctx) -> dict:
     counts: dict[str, int] = {}
-    results = [r01_1(ctx, counts), r01_2(ctx, counts)]
+    results = [r01_1(ctx, counts), r01_2(ctx, counts), r01_3(ctx, counts)]
     return {
         'results': results, 'counts': counts,
         'explanation':
